@@ -91,9 +91,11 @@ def not_modified(req):
     Headers ETag, Content-Location is return from request.
     Date header will be set.
     """
+    # request, which was not fully created, has no headers
+    headers = getattr(req, 'headers', {})
     return NotModifiedResponse(
-            etag=req.headers.get('ETag'),
-            content_location=req.headers.get('Content-Location'),
+            etag=headers.get('ETag'),
+            content_location=headers.get('Content-Location'),
             date=time_to_http())
 
 
